@@ -93,9 +93,24 @@ func c09Collision(r *Rng, forced int) c09WS {
 		case 2:
 			return c09CrossFileMembers(r)
 		}
-		forced = r.Intn(8)
+		forced = r.Intn(9)
 	}
-	switch forced % 8 {
+	switch forced % 9 {
+	case 8: // nested table constructors on one line whose inner tables share key names
+		var sb strings.Builder
+		inner := []string{"x", "y", "w"}
+		outer := []string{"min", "max", "mid", "pos"}
+		n := r.Range(2, 4)
+		sb.WriteString("local rect = { ")
+		for i := 0; i < n; i++ {
+			fmt.Fprintf(&sb, "%s = { ", outer[i])
+			for _, k := range inner {
+				fmt.Fprintf(&sb, "%s = %d, ", k, i*10+len(k))
+			}
+			sb.WriteString("}, ")
+		}
+		sb.WriteString("}\nprint(rect.min.x, rect.max.x, rect.max.y)\nGRect = { a = { id = 1, tag = \"a\" }, b = { id = 2, tag = \"b\" } }\nprint(GRect.a.id, GRect.b.id)\n")
+		return c09WS{"nested-constructors-sharing-keys", map[string]string{"shape.lua": sb.String(), "use.lua": "print(GRect.b.tag, GRect.a.tag)\n"}}
 	case 7: // a configuration file whose per-file rules overlap: two rules with different type lists match the same file
 		lib := "local function util(p)\n  local u1, u2 = 1, 2\n  local w1\n  w1 = p\n  return p\nend\nlocal a, b = util(1), 2, 3\nprint(a, b, undefinedInLib)\n"
 		return c09WS{"config-file-overlapping-rules", map[string]string{"lib/util.lua": lib, "lib/other.lua": lib, "main.lua": "local m1, m2 = 1\nprint(undefinedInMain)\n",
@@ -368,7 +383,7 @@ func runC09(c *Ctx) {
 	}
 	for i := 0; i < nColl; i++ {
 		forced := -1
-		if i < 24 {
+		if i < 27 {
 			forced = i // three of each hand-written kind first
 		}
 		wss = append(wss, c09Collision(root.Fork(uint64(100000+i)), forced))
